@@ -116,13 +116,132 @@ def maxEntry : Tree → Option (Nat × Nat)
   | node _ _ k v nil => some (k, v)
   | node _ _ _ _ r => maxEntry r
 
-/-- `get_successor_node` of the node holding key `k`: the next entry of the in-order walk -/
+/-! ### node positions and the pointer walks (`tree_min`, `tree_max`, `get_successor_node`,
+`get_predecessor_node`)
+
+A node is addressed by its path from the root; its `parent` is the path without the last step, and
+"x is the right child of its parent" is "the last step is `R`".  The walks below are the C loops. -/
+
+inductive Dir where
+  | L | R
+  deriving DecidableEq, Repr, Inhabited
+
+abbrev Path := List Dir
+
+/-- the subtree hanging at a position (`nil`: the sentinel, or a path that leaves the tree) -/
+def subtree : Tree → Path → Tree
+  | t, [] => t
+  | nil, _ :: _ => nil
+  | node _ l _ _ _, .L :: p => subtree l p
+  | node _ _ _ _ r, .R :: p => subtree r p
+
+/-- `n->key`, `n->value` of the node at a position -/
+def entryAt (t : Tree) (p : Path) : Option (Nat × Nat) :=
+  match subtree t p with
+  | node _ _ k v _ => some (k, v)
+  | nil => none
+
+/-- `tree_min(n)` for a non-sentinel `n`: `while (n->left != s) n = n->left;` — the steps taken -/
+def treeMinPath : Tree → Path
+  | nil => []
+  | node _ nil _ _ _ => []
+  | node _ l _ _ _ => .L :: treeMinPath l
+
+/-- `tree_max(n)`: `while (n->right != s) n = n->right;` -/
+def treeMaxPath : Tree → Path
+  | nil => []
+  | node _ _ _ _ nil => []
+  | node _ _ _ _ r => .R :: treeMaxPath r
+
+/-- the climbing loop of `get_successor_node`, on the reversed path (innermost step first):
+`y = x->parent; while (y != s && x == y->right) { x = y; y = y->parent; } return y;`
+`none` = the sentinel (the root's parent) was reached -/
+def climbFromRight : List Dir → Option (List Dir)
+  | [] => none
+  | .R :: rest => climbFromRight rest
+  | .L :: rest => some rest
+
+/-- the climbing loop of `get_predecessor_node`: `while (y != s && x == y->left)` -/
+def climbFromLeft : List Dir → Option (List Dir)
+  | [] => none
+  | .L :: rest => climbFromLeft rest
+  | .R :: rest => some rest
+
+/-- `get_successor_node(x)` for the node `x` at position `p` -/
+def succPath (t : Tree) (p : Path) : Option Path :=
+  match subtree t p with
+  | nil => none
+  | node _ _ _ _ r =>
+    if r ≠ nil then some (p ++ .R :: treeMinPath r)          -- `return tree_min(table, x->right);`
+    else (climbFromRight p.reverse).map List.reverse
+
+/-- `get_predecessor_node(x)` -/
+def predPath (t : Tree) (p : Path) : Option Path :=
+  match subtree t p with
+  | nil => none
+  | node _ l _ _ _ =>
+    if l ≠ nil then some (p ++ .L :: treeMaxPath l)          -- `return tree_max(table, x->left);`
+    else (climbFromLeft p.reverse).map List.reverse
+
+/-- number of nodes the successor walk looks at (no comparator call is made) -/
+def succVisits (t : Tree) (p : Path) : Nat :=
+  match subtree t p with
+  | nil => 0
+  | node _ _ _ _ r =>
+    if r ≠ nil then 1 + (treeMinPath r).length
+    else p.length - ((climbFromRight p.reverse).map List.length).getD 0
+
+/-- the node `get_tree_node_by_key` returns (descent with the comparator) -/
+def findPath (cmp : Nat → Nat → Int) (k : Nat) : Tree → Option Path
+  | nil => none
+  | node _ l key _ r =>
+    if cmp k key < 0 then (findPath cmp k l).map (.L :: ·)
+    else if 0 < cmp k key then (findPath cmp k r).map (.R :: ·)
+    else some []
+
+/-- the position of the node a pointer refers to; a node is identified by its key (the C code never
+moves a key from one node to another, keys are unique) -/
+def posOf (k : Nat) : Tree → Option Path
+  | nil => none
+  | node _ l key _ r =>
+    if key = k then some []
+    else match posOf k l with
+      | some p => some (.L :: p)
+      | none => (posOf k r).map (.R :: ·)
+
+/-- entry of the successor node of the node at `p` (`none`: the sentinel) -/
+def succEntryAt (t : Tree) (p : Path) : Option (Nat × Nat) := (succPath t p).bind (entryAt t)
+def predEntryAt (t : Tree) (p : Path) : Option (Nat × Nat) := (predPath t p).bind (entryAt t)
+
+/-- `get_successor_node(get_tree_node_by_key(key))` -/
+def succOfKey (cmp : Nat → Nat → Int) (t : Tree) (k : Nat) : Option (Nat × Nat) :=
+  (findPath cmp k t).bind (succEntryAt t)
+def predOfKey (cmp : Nat → Nat → Int) (t : Tree) (k : Nat) : Option (Nat × Nat) :=
+  (findPath cmp k t).bind (predEntryAt t)
+/-- `get_successor_node(x)` for the node pointer `x` held by an iterator -/
+def succOfNode (t : Tree) (k : Nat) : Option (Nat × Nat) := (posOf k t).bind (succEntryAt t)
+
+/-- position of `tree_min(root)` (`none`: the sentinel) -/
+def minPos (t : Tree) : Option Path := match t with | nil => none | _ => some (treeMinPath t)
+
+/-- the enumeration loop of `foreach_*` / `contains_value`:
+`n = tree_min(root); while (n != s) { visit n; n = get_successor_node(n); }`
+(`fuel` bounds the number of iterations; `size` suffices) -/
+def walkFrom (t : Tree) : Nat → Option Path → List (Nat × Nat)
+  | 0, _ => []
+  | _ + 1, none => []
+  | fuel + 1, some p =>
+    match entryAt t p with
+    | none => []
+    | some e => e :: walkFrom t fuel (succPath t p)
+
+def walk (t : Tree) : List (Nat × Nat) := walkFrom t t.size (minPos t)
+
+/-- the in-order neighbours on the list of entries (used by the proofs: the walks above compute them) -/
 def nextAfter : List (Nat × Nat) → Nat → Option (Nat × Nat)
   | [], _ => none
   | e :: rest, k => if e.1 = k then rest.head? else nextAfter rest k
 
-/-- `get_predecessor_node` of the node holding key `k`: the previous entry of the in-order walk,
-i.e. the next entry of the walk in the opposite direction -/
 def prevBefore (l : List (Nat × Nat)) (k : Nat) : Option (Nat × Nat) := nextAfter l.reverse k
 
 /-! ### deletion -/
@@ -287,7 +406,7 @@ def containsKey (t : TreeTable) (k : Nat) : Bool × Nat :=
 
 /-- `cc_treetable_contains_value`: number of entries with that value -/
 def containsValue (t : TreeTable) (v : Nat) : Nat :=
-  (t.root.toList.filter (fun e => e.2 == v)).length
+  (t.root.walk.filter (fun e => e.2 == v)).length
 
 /-- `remove_node` + the final `x->color = BLACK` at the root -/
 def removeNode (t : TreeTable) (k : Nat) (m : Mem) : TreeTable × Mem :=
@@ -331,7 +450,7 @@ def greaterThan (t : TreeTable) (k : Nat) : Stat × Option Nat × Nat :=
   match t.lookup cmp k with
   | (none, n) => (.errKeyNotFound, none, n)
   | (some _, n) =>
-    match Tree.nextAfter t.root.toList k with
+    match Tree.succOfKey cmp t.root k with
     | some e => (.ok, some e.1, n)
     | none => (.errKeyNotFound, none, n)
 
@@ -340,12 +459,12 @@ def lesserThan (t : TreeTable) (k : Nat) : Stat × Option Nat × Nat :=
   match t.lookup cmp k with
   | (none, n) => (.errKeyNotFound, none, n)
   | (some _, n) =>
-    match Tree.prevBefore t.root.toList k with
+    match Tree.predOfKey cmp t.root k with
     | some e => (.ok, some e.1, n)
     | none => (.errKeyNotFound, none, n)
 
-def foreachKey (t : TreeTable) : List Nat := t.root.toList.map (·.1)
-def foreachValue (t : TreeTable) : List Nat := t.root.toList.map (·.2)
+def foreachKey (t : TreeTable) : List Nat := t.root.walk.map (·.1)
+def foreachValue (t : TreeTable) : List Nat := t.root.walk.map (·.2)
 
 /-! ### iterator -/
 
@@ -355,7 +474,7 @@ def iterInit (t : TreeTable) : TreeIter :=
 
 /-- value stored in the node that holds key `k` (pointer dereference, no comparator call) -/
 def valueAt (t : TreeTable) (k : Nat) : Nat :=
-  ((t.root.toList.find? (fun e => e.1 == k)).map (·.2)).getD 0
+  (((Tree.posOf k t.root).bind (Tree.entryAt t.root)).map (·.2)).getD 0
 
 /-- `cc_treetable_iter_next` -/
 def iterNext (t : TreeTable) (it : TreeIter) : Stat × Option (Nat × Nat) × TreeIter :=
@@ -363,7 +482,7 @@ def iterNext (t : TreeTable) (it : TreeIter) : Stat × Option (Nat × Nat) × Tr
   | none => (.iterEnd, none, it)
   | some k =>
     (.ok, some (k, t.valueAt k),
-      { cur := .at k, next := (Tree.nextAfter t.root.toList k).map (·.1) })
+      { cur := .at k, next := (Tree.succOfNode t.root k).map (·.1) })
 
 /-- `cc_treetable_iter_remove`.  Calling it before the first `iter_next` (current = sentinel)
 violates the documented precondition; the model flags it as a fault. -/
